@@ -56,6 +56,10 @@ def ev_coq(e):
         return '(EStaleReady %s)' % cbool(a[0])
     if k == 'death':
         return '(EDeath %s %s)' % (cz(a[0]), cz(a[1]))
+    if k in ('drain_begin', 'drain_end'):
+        return 'EJunk'
+    if k == 'wait':
+        return '(EAdvance %s)' % cz(a[0])
     if k == 'junk':
         return 'EJunk'
     if k == 'exit':
@@ -1111,6 +1115,63 @@ def sweep_grow_budget():
     return out
 
 
+def sweep_drain_loop():
+    """the result handler's drain loop of a closed pool (ONE real call of finish_at_shutdown, its poll
+    scripted): a worker has died with a job; the other worker keeps sending results, one per round,
+    idle rounds in between; the loop runs the supervision pass after every round, so the loss is
+    detected and, once the grace period is over, reported -- also while messages keep arriving"""
+    out = []
+    for lost in (2, 3):
+        for busy in (True, False, 'never-idle'):
+            for code in (-9, 1):
+                ev = [['apply', None, None, lost, None]] + [['apply', None, None, None, None] for _ in range(6)]
+                ev += [['ack', 0, None, 0], ['ack', 1, None, 1], ['close'], ['exit', 0, code], ['drain_begin']]
+                for k in range(1, 7):
+                    if busy == 'never-idle':
+                        # the other worker's messages arrive one second apart: no round ever finds the pipe idle
+                        if k < 6:
+                            ev += [['wait', 1], ['ready', k, None, True, k], ['join_shutdown']]
+                            ev += [['wait', 1], ['ack', k + 1, None, 1], ['join_shutdown']]
+                        continue
+                    if busy:
+                        ev += [['ready', k, None, True, k], ['join_shutdown']]
+                        if k < 6:
+                            ev += [['ack', k + 1, None, 1], ['join_shutdown']]
+                    if not (busy and k == 6):
+                        ev += [['advance', 1], ['join_shutdown']]
+                ev += [['drain_end']]
+                out.append(dict(cfg=dict(n=2, max_restarts=100, drain_case=True), events=ev))
+    return out
+
+
+def mon_C04_drain(case, obs):
+    """a job whose worker exited is failed by the drain loop once its grace period (plus one round) is
+    over, whatever else the loop is busy with"""
+    if not case['cfg'].get('drain_case') or not obs:
+        return []
+    out = []
+    exits = {}
+    owner = {}
+    for n, (e, o) in enumerate(zip(case['events'], obs)):
+        if e[0] == 'exit':
+            exits[e[1]] = (o['now'], e[2])
+        if e[0] == 'ack' and e[2] is None:
+            owner.setdefault(e[1], e[3])
+    params = job_params(case, obs)
+    last = obs[-1]
+    for k, j in enumerate(last['jobs']):
+        p_ = owner.get(k)
+        if j['kind'] == 'apply' and p_ in exits and k < len(params):
+            te, st = exits[p_]
+            if not j['ready'] and last['now'] - te > params[k][2] + 2:
+                skipped = sum(1 for o in obs if o['ret'] == 'PassSkipped')
+                out.append(('C04:loss-not-reported-by-the-drain-loop',
+                            'job %d: its worker exited (status %s) at %s, lost-worker timeout %s; the drain loop of the closed pool has run until %s '
+                            'and the job is still unresolved (%d supervision passes the loop should have run were skipped)'
+                            % (k, st, te, params[k][2], last['now'], skipped)))
+    return out
+
+
 def sweep_shutdown_loss():
     """a worker dies with a job while the pool is closed (before or after close()); the result
     handler's drain loop (join_shutdown) is what turns the expired marker into a failure, also when no
@@ -1208,8 +1269,8 @@ def mon_C01_unresolved(case, obs):
     return [('C01:job-unresolved-past-hard-limit', w) for s_, w in mon_C05_jobs(case, obs) if s_ == 'C05:not-timed-out-by-scan']
 
 
-SWEEPS = dict(C01=lambda: sweep_loss()[::3] + sweep_limits()[::3] + sweep_terminate_job() + sweep_late_result()[::2] + sweep_two_handles(), C04=lambda: sweep_loss() + sweep_terminate_job() + sweep_shutdown_loss() + sweep_late_result() + sweep_two_handles(), C05=sweep_limits, C06=sweep_limits,
-              C07=lambda: sweep_close_in_pass() + sweep_shutdown_loss() + sweep_empty_after(),
+SWEEPS = dict(C01=lambda: sweep_loss()[::3] + sweep_limits()[::3] + sweep_terminate_job() + sweep_late_result()[::2] + sweep_two_handles(), C04=lambda: sweep_loss() + sweep_terminate_job() + sweep_shutdown_loss() + sweep_late_result() + sweep_two_handles() + sweep_drain_loop(), C05=sweep_limits, C06=sweep_limits,
+              C07=lambda: sweep_close_in_pass() + sweep_shutdown_loss() + sweep_empty_after() + sweep_drain_loop()[::2],
               C08=lambda: sweep_loss()[::6] + sweep_terminate_job()[::2] + sweep_close_in_pass()[::3], C09=lambda: sweep_loss()[::6] + sweep_resize() + sweep_close_in_pass()[::2] + sweep_grow_budget(), C11=sweep_grow_budget,
               C10=lambda: sweep_resize() + sweep_timeout_slots())
 
@@ -2010,6 +2071,7 @@ def mon_C01_unsent(case, obs):
 
 
 MONITORS['C01'].append(mon_C01_unsent)
+MONITORS['C04'].append(mon_C04_drain)
 MONITORS['C10'].append(mon_C10_quiet_end)
 MONITORS['C10'].append(mon_known_C10_two_jobs)
 MONITORS['C01'].append(mon_C01_result_dropped)
